@@ -141,7 +141,7 @@ def make(V, template, ncyc=3):
         # sparse EigenSolve (n = 3, two modes) with eigenvector sensitivities: per-mode adjoint factorisations are cached
         # inside the module between sensitivity() calls and across response() calls
         from pymoto.modules import linalg as _la
-        from .catalogue import _SingularAdjointOracle, _mk_sparse
+        from .catalogue import _SingularAdjointOracle
         n = 3
         sA = pym.Signal("A")
         m = pym.EigenSolve([sA], nmodes=2, hermitian=True)
